@@ -4,6 +4,7 @@
 From Coq Require Import List ZArith QArith Qround Bool.
 From PV Require Import lib.Sx lib.Str lib.Result lib.Dec.
 From PV Require Import model.TimeRead model.TimeTree spec.SpecTime spec.SpecTimeTree proofs.TimeReadFacts proofs.TimeDocFacts proofs.TimeTreeFacts.
+From PV Require Import model.XmlRead spec.SpecXmlDocT proofs.XmlReadFacts.
 Import ListNotations.
 Open Scope Z_scope.
 
@@ -237,3 +238,45 @@ Example C01_ex_vtt_framed :
                    ++ render_lines false [lit "NOTE the end"; lit "of the file"])
   = Ok [(1000000, 2500000, [lit "x"])].
 Proof. vm_compute. reflexivity. Qed.
+
+(* ---- wave 7: DFXP documents AS TEXT ------------------------------------------------------------------------------
+   xdoc (spec/SpecXmlDocT.v) = element structure + every lexical choice (white space inside tags and between elements,
+   quote character per attribute, begin / end / dur anywhere among the other attributes in either order, xml:lang
+   anywhere, XML declaration, each character of character data literal / entity / decimal character reference).
+   dfxp_read_string (model/XmlRead.v) = text -> tree (after BeautifulSoup + html.parser on this sublanguage) -> the
+   queries of DFXPReader.read -> dfxp_read_doc. *)
+
+(* the text of every well-formed abstract document parses to its element tree *)
+Theorem C01_dfxp_text_to_tree : forall d, xdoc_ok d = true -> parse_doc (render_doc d) = Some (tree_doc d).
+Proof. exact parse_doc_render. Qed.
+Print Assumptions C01_dfxp_text_to_tree.
+
+(* well-formed text is inside the domain of the tree-level theorem: every <p> with visible text is timed, and lies in a
+   <div> of the document or in none *)
+Theorem C01_dfxp_text_domain : forall d, xdoc_ok d = true -> doc_dom (xdoc_divs d) (xdoc_ps d) = true.
+Proof. exact xdoc_doc_dom. Qed.
+Print Assumptions C01_dfxp_text_domain.
+
+(* STRING LEVEL: reading the rendered text of any well-formed abstract document yields, per language in document order,
+   one caption per paragraph with visible text, with the exact denoted instants (CaptionReadNoCaptions if there is none) *)
+Theorem C01_dfxp_string_exact : forall default d, xdoc_ok d = true ->
+  dfxp_read_string default (render_doc d) = xdoc_expected default d.
+Proof. exact dfxp_string_exact. Qed.
+Print Assumptions C01_dfxp_string_exact.
+
+Example C01_ex_dfxp_text :
+  let f := mkAf [32] [] [] true in let g := mkAf [32; 32] [32] [32] false in
+  let t1 := mkP (Offset 0 1 [] Mms) false (Clock 1 0 0 2 (Frac [5])) in
+  let d := mkXd (Some (lit "xml version='1.0'?")) [32] [] (Some (f, lit "en")) [] []
+             (FElem [] (lit "body") (mkRt [] [])
+                (FDiv [32] [] (Some (g, lit "fr")) [] [32]
+                   (FP [] (PaTimed [mkRa f (lit "role") (lit "a<b&'c")] [] [] true f g t1) []
+                       ([([(104, false)], PBr [32])], [(38, false); (160, true)]) []
+                    (FP [] (PaFree []) [] ([], [(160, true); (32, false)]) [] (FEnd [32])))
+                   [] (FEnd []))
+                [] (FEnd []))
+             [] [] in
+  xdoc_ok d = true /\
+  render_doc d = lit "<?xml version='1.0'?> <tt xml:lang=""en""><body> <div  xml:lang = 'fr' ><p role=""a&lt;b&amp;'c""  end = '00:00:02.5' begin=""1ms"">h<br />&amp;&#160;</p><p>&#160; </p> </div></body></tt>" /\
+  dfxp_read_string (lit "und") (render_doc d) = Ok [(lit "fr", [(1000, 2500000)])].
+Proof. vm_compute. repeat split; reflexivity. Qed.
